@@ -114,24 +114,24 @@ const (
 )
 
 type Term struct {
-	ID   int32
-	Op   Op
-	S    Sort
-	Args []*Term
-	C    uint64   // BV/Bool const (≤64 bits), FP const bits
-	Big  *big.Int // Int const
-	Name string
-	A, B int
+	ID    int32
+	Op    Op
+	S     Sort
+	Args  []*Term
+	C     uint64   // BV/Bool const (≤64 bits), FP const bits
+	Big   *big.Int // Int const
+	Name  string
+	A, B  int
 	hasUF bool
 }
 
 type Store struct {
-	tab   map[string]*Term
-	terms []*Term
-	Vars  []*Term // in creation order
-	varByName map[string]*Term
-	ufDecl map[string]string // name -> declaration line
-	UFOrder []string
+	tab         map[string]*Term
+	terms       []*Term
+	Vars        []*Term // in creation order
+	varByName   map[string]*Term
+	ufDecl      map[string]string // name -> declaration line
+	UFOrder     []string
 	True, False *Term
 }
 
